@@ -48,11 +48,15 @@ ROUTES = [
     "{% set a %}xax{% endset %}{{ a | replace(from='a', to=v) }}", "{% set a %}xyz{% endset %}{{ a | truncate(length=1, end=v) }}", "{% set a %}x{% endset %}{{ a ~ v }}|{{ v ~ a }}",
     "{% set a %}{% endset %}{{ a | default(value=v, boolean=true) }}", "{% set a %}x,y{% endset %}{{ a | split(pat=',') | join(sep=v) }}", "{% set a %}x{% endset %}{{ [a, a] | first ~ v }}",
     "{% set a %}x{% endset %}{{ a | indent(width=1) ~ v }}", "{% set a %}x{% endset %}{{ {'k': a, 'd': v} }}", "{% set a %}x{% endset %}{{ [a, v] }}", "{% set a %}x{% endset %}{% set m = {'k': a, 'd': v} %}{{ m.d }}{{ m.k }}",
+    # literal template text inside captured bodies (a body that is ONE static text node, with and without attributes): written
+    # as it stands -- "T&T" must come out verbatim
+    "{% <nb> %}T&T{% </nb> %}{{ v }}", "{% <nb> %}T&T{{ v }}{% </nb> %}", "{% <c p='a'> %}T&T{% </c> %}{{ v }}", "{% set x %}T&T{% endset %}{{ x }}{{ v }}",
+    "{% filter safe %}T&T{% endfilter %}{{ v }}", "{% <nb> %}{% <nb> %}T&T{% </nb> %}{% </nb> %}{{ v }}", "{% for i in [1] %}{% <nb> %}T&T{% </nb> %}{% endfor %}{{ v }}",
     "{% set a = <c p='x' /> %}{{ [a, a] | join(sep=v) }}", "{% set a %}x{% endset %}{{ (a if false else v) }}", "{% set a %}x{% endset %}{{ [a, v] | last }}{{ [v, a] | first }}", "{% set a %}x{% endset %}{{ [a, v] | reverse | join }}",
 ]
 LIB = [["inc", "I{{ v }}"], ["incx", "I{{ x }}"],
        ["comps", "{% component c(p) %}C{{ p }}{% if body is defined %}{{ body }}{% endif %}{% endcomponent c %}"
-                 "{% component outer(p) %}O{{<c p={p} />}}{% <c p={p}> %}{{ p }}{% if body is defined %}{{ body }}{% endif %}{% </c> %}{% endcomponent outer %}"],
+                 "{% component nb() %}{{ body }}{% endcomponent nb %}{% component outer(p) %}O{{<c p={p} />}}{% <c p={p}> %}{{ p }}{% if body is defined %}{{ body }}{% endif %}{% </c> %}{% endcomponent outer %}"],
        ["compinc", "{% component ci(p) %}{% set v = p %}K{% include 'inc' %}{{<c p={p} />}}{% endcomponent ci %}"],
        ["base", "B{% block a %}P{{ v }}{% endblock %}{% block b %}{% endblock %}"],
        ["child", "{% extends 'base' %}{% block a %}K{{ super() }}{{ v }}{% endblock %}{% block b %}{% filter upper %}{% block n %}N{{ v }}{% endblock %}{% endfilter %}{% endblock %}"]]
@@ -132,6 +136,8 @@ def sweep(C, tier):
                 continue                      # an error value writes nothing
             C.nontrivial([route, kind, mode, k])
             out = x.get("out", "")
+            if "T&T" in route and "T&T" not in out:
+                C.violation(dict(key, kind="sweep-literal"), "%r (%s): the literal text T&T of the template does not come out as it stands: %r" % (route, mode, out), {"job": job, "step": k, "out": out})
             if eff and any(ch in out for ch in SP):
                 C.violation(key, "autoescape on (%s, %s): %r with a %s value writes %r" % (mode, st["op"], route if on is not None else st.get("name"), kind, out), {"job": job, "step": k, "out": out})
             if not eff and any(e in out for e in ENTITIES):
